@@ -71,6 +71,7 @@ import Drx.Vwsc
 import Drx.VwscSpec
 import DrxProofs.Py
 import DrxProofs.Vwsc
+set_option linter.unusedVariables false
 namespace Drx.Vwsc
 open Drx Drx.Vwsc.Spec Drx.VwscLayout
 
@@ -81,18 +82,18 @@ theorem toSigned16_mod (n : Nat) (h : n < 65536) : toSigned 16 n % 65536 = (n : 
   split <;> omega
 
 /-- a signed 16-bit field laid out after `a` is read back by a generated field descriptor with that offset -/
-theorem raw_s16_at (a c : Bytes) (v : Int) (h : In16 v) (off : Nat) (hoff : off = a.length) :
-    (⟨off, .s16, .raw⟩ : Fld).raw (a ++ (encS .be 2 v ++ c)) = .ok v := by
+theorem raw_s16_at (p : Post) (a c : Bytes) (v : Int) (h : In16 v) (off : Nat) (hoff : off = a.length) :
+    (⟨off, .s16, p⟩ : Fld).raw (a ++ (encS .be 2 v ++ c)) = .ok v := by
   simp only [Fld.raw]; exact getS2_at a c v h off hoff
 
-theorem raw_u16_at (a c : Bytes) (n : Nat) (h : n < 65536) (off : Nat) (hoff : off = a.length) :
-    (⟨off, .s16, .raw⟩ : Fld).raw (a ++ (encU16 n ++ c)) = .ok (toSigned 16 n) := by
+theorem raw_u16_at (p : Post) (a c : Bytes) (n : Nat) (h : n < 65536) (off : Nat) (hoff : off = a.length) :
+    (⟨off, .s16, p⟩ : Fld).raw (a ++ (encU16 n ++ c)) = .ok (toSigned 16 n) := by
   simp only [Fld.raw, getS]
   rw [slice_mid a _ c off (off + 2) hoff (by simp [hoff])]
   simp [unpackS, encU16, ordNat_encOrd_of_lt .be 2 n (by omega)]
 
-theorem raw_u8_at (a c : Bytes) (b : UInt8) (off : Nat) (hoff : off = a.length) :
-    (⟨off, .u8, .raw⟩ : Fld).raw (a ++ (b :: c)) = .ok (b2i b) := by
+theorem raw_u8_at (p : Post) (a c : Bytes) (b : UInt8) (off : Nat) (hoff : off = a.length) :
+    (⟨off, .u8, p⟩ : Fld).raw (a ++ (b :: c)) = .ok (b2i b) := by
   subst hoff; simp [Fld.raw, byteAt, b2i, Except.map]
 
 theorem int_of_raw (f : Fld) (d : Bytes) (h : f.post = .raw) : f.int d = f.raw d := by
@@ -127,37 +128,55 @@ theorem int_of_raw (f : Fld) (d : Bytes) (h : f.post = .raw) : f.int d = f.raw d
             g = f"Gen.Score.{rd}_{py}"
             if kind == "b":
                 shape = f"({pre}) ++ (s.{fld} :: ({post}))"
-                lem = f"raw_u8_at _ _ _ _ (by simp)"
+                lem = f"raw_u8_at _ _ _ _ _ (by simp)"
             elif kind == "s":
                 shape = f"({pre}) ++ (encS .be 2 s.{fld} ++ ({post}))"
-                lem = f"raw_s16_at _ _ _ ({valid_proj(fld)}) _ (by simp)"
+                lem = f"raw_s16_at _ _ _ _ ({valid_proj(fld)}) _ (by simp)"
             else:
                 shape = f"({pre}) ++ (encU16 s.{fld} ++ ({post}))"
-                lem = f"raw_u16_at _ _ _ ({valid_proj(fld)}) _ (by simp)"
+                lem = f"raw_u16_at _ _ _ _ ({valid_proj(fld)}) _ (by simp)"
             o.append(f"theorem {rd}_r_{py} (s : {raw}) (h : s.Valid) : {g}.raw ({enc} s) = .ok ({cell_val(kind, fld)}) := by\n"
                      f"  have e : {enc} s = {shape} := by simp [{enc}, List.append_assoc]\n"
                      f"  rw [e]; exact {lem}\n")
-        # checkAll
-        gens = [f"{rd}_r_{py} s h" for kind, fld, py in cells if py is not None]
-        o.append(f"theorem {rd}_check (s : {raw}) (h : s.Valid) : checkAll Gen.Score.{rd} ({enc} s) = .ok () := by\n"
-                 f"  simp only [Gen.Score.{rd}, checkAll, " + ", ".join(gens) + ", bind, Except.bind]\n")
-        # the reader
+        # checkAll, abstractly (the kernel chokes on the same rewrite done over the concrete encoder term)
+        named = [(kind, fld, py) for kind, fld, py in cells if py is not None]
+        hyps = " ".join(f"(f_{py} : Gen.Score.{rd}_{py}.raw d = .ok v_{py})" for _, _, py in named)
+        vs = " ".join(f"v_{py}" for _, _, py in named)
+        o.append(f"theorem {rd}_check_of (d : Bytes) ({vs} : Int) {hyps} :\n    checkAll Gen.Score.{rd} d = .ok () := by\n"
+                 f"  simp only [Gen.Score.{rd}, checkAll, " + ", ".join(f"f_{py}" for _, _, py in named) + ", bind, Except.bind]\n")
+        o.append(f"theorem {rd}_check (s : {raw}) (h : s.Valid) : checkAll Gen.Score.{rd} ({enc} s) = .ok () :=\n"
+                 f"  {rd}_check_of _ " + " ".join("_" for _ in named) + " " + " ".join(f"({rd}_r_{py} s h)" for _, _, py in named) + "\n")
         used = USED[rd]
+        uh = " ".join(f"(f_{py} : Gen.Score.{rd}_{py}.raw d = .ok v_{py})" for py, _ in used)
+        uv = " ".join(f"v_{py}" for py, _ in used)
         rw = []
         for py, how in used:
             if how == "int":
-                rw.append(f"int_of_raw _ _ (rfl : Gen.Score.{rd}_{py}.post = .raw), {rd}_r_{py} s h")
+                rw.append(f"int_of_raw _ _ (rfl : Gen.Score.{rd}_{py}.post = .raw), f_{py}")
             else:
-                rw.append(f"{rd}_r_{py} s h")
+                rw.append(f"f_{py}")
+        o.append(f"theorem {fn}_of (d : Bytes) ({uv} : Int) (hc : checkAll Gen.Score.{rd} d = .ok ()) {uh} :\n"
+                 f"    {fn} d = .ok ({RESULT[rd]}) := by\n"
+                 f"  simp only [{fn}, hc, " + ", ".join(rw) + ", bind, Except.bind, pure, Except.pure]\n"
+                 f"  split <;> rfl\n")
         extra = ""
         if rd.endswith("Sprite"):
             extra = f", toSigned16_mod s.flag2 ({valid_proj('flag2')})"
         o.append(f"theorem {fn}_enc (s : {raw}) (h : s.Valid) : {fn} ({enc} s) = .ok ({view} s) := by\n"
-                 f"  simp only [{fn}, {rd}_check s h, " + ", ".join(rw) + f"{extra}, bind, Except.bind, pure, Except.pure, {view}]\n"
-                 f"  split <;> rfl\n")
+                 f"  rw [{fn}_of _ " + " ".join("_" for _ in used) + f" ({rd}_check s h) " + " ".join(f"({rd}_r_{py} s h)" for py, _ in used) + "]\n"
+                 f"  simp only [{view}{extra}]\n")
     o.append("end Drx.Vwsc\n")
     return "\n".join(o)
 
+
+RESULT = {
+ "d4Main": "if v_fps ≠ 0 ∨ v_sound1_cast ≠ 0 ∨ v_sound2_cast ≠ 0 ∨ v_script ≠ 0 then some ⟨v_fps, v_sound1_cast, v_sound2_cast, v_script, .d4 (transitionName v_transition_id) v_transition_chunk_size (v_transition_duration % 128)⟩ else none",
+ "d4Palette": "if v_palette_id ≠ 0 then some ⟨v_fps, operationName v_operation_code, v_palette_id, v_cycles⟩ else none",
+ "d4Sprite": "if v_castId > 0 then some ⟨v_spriteType, v_castId, v_foregroundColor, v_backgroundColor, v_ink_byte % 64, some v_flags, v_y, v_x, v_height, v_width, v_ink_byte / 64 % 2, v_flag2 % 65536 / 32768 % 2 ≠ 0, v_flag2 % 65536 / 16384 % 2 ≠ 0⟩ else none",
+ "d5Main": "if v_fps ≠ 0 ∨ v_sound1_cast ≠ 0 ∨ v_sound2_cast ≠ 0 ∨ v_script ≠ 0 then some ⟨v_fps, v_sound1_cast, v_sound2_cast, v_script, .d5 v_transition_cast_id⟩ else none",
+ "d5Palette": "if v_palette_id ≠ 0 then some ⟨v_fps, operationName v_operation_code, v_palette_id, v_cycles⟩ else none",
+ "d5Sprite": "if v_castId > 0 then some ⟨v_spriteType, v_castId, v_foregroundColor, v_backgroundColor, v_ink_byte % 64, none, v_y, v_x, v_height, v_width, v_ink_byte / 64 % 2, v_flag2 % 65536 / 32768 % 2 ≠ 0, v_flag2 % 65536 / 16384 % 2 ≠ 0⟩ else none",
+}
 
 VALID_ORDER = {
     "d4Main": ["flags", "sound1", "sound2", "soundFlags", "unknown1", "unknown2", "script", "unknown3"],
